@@ -165,6 +165,43 @@ func (s *searcher) lossless(t *Ty, vtext string) []byte {
 	return e
 }
 
+// canonHeader is the one header the specification allows for a string/list payload of n bytes.
+func canonHeader(small byte, n int) []byte {
+	if n < 56 {
+		return []byte{small + byte(n)}
+	}
+	var be []byte
+	for v := uint64(n); v > 0; v >>= 8 {
+		be = append([]byte{byte(v)}, be...)
+	}
+	return append([]byte{small + 55 + byte(len(be))}, be...)
+}
+
+// splitCanonical: what raw.go's Split accepts must be the canonical encoding of (kind, content).
+func (s *searcher) splitCanonical(b []byte) {
+	s.evals++
+	k, content, rest, err := rlp.Split(b)
+	if err != nil {
+		return
+	}
+	used := b[:len(b)-len(rest)]
+	var want []byte
+	switch {
+	case k == rlp.List:
+		want = append(canonHeader(0xc0, len(content)), content...)
+	case len(content) == 1 && content[0] < 0x80:
+		want = content
+	default:
+		want = append(canonHeader(0x80, len(content)), content...)
+	}
+	if !bytes.Equal(used, want) {
+		s.finding("noncanon:split", "split "+hx.Hex(b), "Split accepts "+hx.Hex(used)+" but the canonical form is "+hx.Hex(want))
+	}
+	if n, err := rlp.CountValues(used); err != nil || n != 1 {
+		s.finding("noncanon:count", "count "+hx.Hex(used), fmt.Sprintf("Split accepts it, CountValues says %d %v", n, err))
+	}
+}
+
 // alloc: bytes allocated while decoding b into interface{} / []byte stay proportional to len(b).
 func (s *searcher) alloc(t *Ty, b []byte) {
 	var m0, m1 runtime.MemStats
@@ -299,6 +336,21 @@ func searchMain(a map[string]string) {
 			}
 		}
 	}
+	// raw.go: every 1-, 2-byte input and boundary triples/quads through Split
+	for x := 0; x < 256; x++ {
+		s.splitCanonical([]byte{byte(x)})
+		for y := 0; y < 256; y++ {
+			s.splitCanonical([]byte{byte(x), byte(y)})
+		}
+	}
+	for _, x := range []byte{0xb8, 0xb9, 0xf8, 0xf9} {
+		for y := 0; y < 256; y++ {
+			pl := make([]byte, 300)
+			s.splitCanonical(append([]byte{x, byte(y)}, pl...))
+			s.splitCanonical(append([]byte{x, 0, byte(y)}, pl...))
+			s.splitCanonical(append([]byte{x, 1, byte(y)}, pl...))
+		}
+	}
 	// three-byte inputs with boundary bytes
 	for _, ts := range small {
 		t, _ := tyOf(ts)
@@ -356,6 +408,8 @@ func searchMain(a map[string]string) {
 		m := malformed(r)
 		s.canonical(anyT, m)
 		s.canonical(t, m)
+		s.splitCanonical(m)
+		s.splitCanonical(mutate(r, m))
 		if round%8 == 0 {
 			s.alloc(anyT, m)
 			s.alloc(bytesT, m)
